@@ -9,6 +9,7 @@ FREE_OPS = ['dealloc', 'dealloc_raw', 'dealloc_root', 'del', 'del_raw', 'del_roo
 STATICS = ['Type', 'Int', 'Float', 'String', 'Tuple', 'Array', 'List', 'Table', 'Tree', 'Ref', 'Box', 'Range', 'Slice', 'Zip',
            'Filter', 'Map', 'Terminal', '_', 'Function', 'File', 'Mutex', 'Thread', 'Exception', 'GC',
            'TypeError', 'ValueError', 'ResourceError', 'KeyError', 'IndexOutOfBoundsError']
+DTOR_ETYPES = ('String', 'Tuple', 'Array')     # element types whose destructor frees a block the element owns
 WORDS = ['a', 'b', 'ab', 'abc', 'hello', 'x9', 'Zz', 'k0', 'k1', 'key', 'val', 'w', 'lo', 'world', '-']
 
 class H:
@@ -30,10 +31,19 @@ class Gen:
     def live(self, pred=lambda h: True):
         return [i for i, h in self.h.items() if h.live and pred(h)]
     def word(self): return self.rng.choice(WORDS)
+    def fixed_items(self):
+        """what an embedded Tuple may point to: live Ints / Strings that are not on the heap and that no Box owns"""
+        return [i for i, h in self.h.items() if h.live and not h.heap and h.kind in ('int', 'str') and not self.owned(i)]
     def scalar(self, ety):
-        return self.word() if ety == 'String' else str(self.rng.randrange(-50, 200))
-    def etype(self, allow_rt=True):
+        if ety == 'String': return self.word()
+        if ety == 'Tuple':
+            c = self.fixed_items()
+            return 't:' + ','.join(str(x) for x in (self.rng.sample(c, min(len(c), self.rng.randrange(0, 4))) if c else []))
+        if ety == 'Array': return 'a:' + ','.join(str(self.rng.randrange(-9, 99)) for _ in range(self.rng.randrange(0, 4)))
+        return str(self.rng.randrange(-50, 200))
+    def etype(self, allow_rt=True, allow_nested=True):
         c = ['Int', 'String'] + ([f'RT{k}' for k, i in self.rt.items() if self.h[i].live] if allow_rt else [])
+        if allow_nested and self.rng.random() < 0.3: return self.rng.choice(['Tuple', 'Array'])
         return self.rng.choice(c)
     def route(self, pool=None):
         r = self.rng.choice(pool or ROUTES)
@@ -64,8 +74,20 @@ class Gen:
     def ownable(self, i):
         h = self.h.get(i)
         return h is not None and h.live and h.kind not in ('rtt', 'sty') and not self.referenced(i)
+    def plain(self, i):
+        h = self.h.get(i); return h is not None and h.kind not in ('box', 'ref')
     def mk_box(self, route=None, target=None):
-        i = self.fresh(); r = route or self.rng.choice(['new', 'new', 'new_raw', 'new_root', 'alloc', 'alloc', 'alloc_raw', 'alloc_root'])
+        i = self.fresh(); r = route or self.rng.choice(['new', 'new', 'new_raw', 'new_root', 'alloc', 'alloc', 'alloc_raw', 'alloc_root', 'stack'])
+        if r == 'stack':
+            # $(Box, x): holds the pointer as it is; x is not a pointer object
+            if self.stack_left <= 0: r = 'alloc'
+            else:
+                self.stack_left -= 1
+                cand = [c for c in self.live() if self.ownable(c) and self.plain(c)]
+                t = target if target is not None else (self.rng.choice(cand) if cand and self.rng.random() < 0.85 else None)
+                self.emit(f'box {i} stack {"-" if t is None else t}')
+                if t is not None and not (self.ownable(t) and self.plain(t)): self.next -= 1; return i
+                self.h[i] = H('box', 'stack', owns=t); return i
         if r.startswith('alloc'):
             self.emit(f'box {i} {r} -'); self.h[i] = H('box', r); return i
         cand = [c for c in self.live() if self.ownable(c)]
@@ -84,7 +106,7 @@ class Gen:
             pref = [c for c in cand if self.h[c].kind == 'box']
             t = None if (not cand or self.rng.random() < 0.1) else self.rng.choice(pref if pref and self.rng.random() < 0.6 else cand)
         self.emit(f'own {b} {"-" if t is None else t}')
-        if t is None or self.ownable(t): self.h[b].owns = t
+        if t is None or (self.ownable(t) and (self.h[b].heap or self.plain(t))): self.h[b].owns = t
     def release_closure(self, seeds):
         """the seeds are finalised: a Box deletes its pointee, which is released too if the collector lists it"""
         R = set(seeds); ch = True
@@ -151,13 +173,20 @@ class Gen:
         if not cand: return
         i = self.rng.choice(cand) if i is None else i
         h = self.h[i]; f = f or self.rng.choice(FREE_OPS)
-        # element targets (not del_raw / destruct of an embedded String: known finding KF-C19-delraw-embedded)
+        # element targets (not del_raw / destruct of an embedded String, Tuple or Array: known finding KF-C19-delraw-embedded)
         if h.kind in ('arr', 'lst', 'tab', 'tre') and self.rng.random() < 0.5:
             t, ety = self.rng.choice(self.elem_targets(i))
-            if ety == 'String' and f in ('del_raw', 'destruct'): f = 'dealloc'
+            if ety in DTOR_ETYPES and f in ('del_raw', 'destruct'): f = 'dealloc'
             self.emit(f'{f} {t}'); return
+        # not del_raw of a stack Box that points to something (the same finding): Box_Del runs before dealloc refuses
+        if h.kind == 'box' and not h.heap and h.owns is not None and f == 'del_raw': f = self.rng.choice(['dealloc', 'destruct', 'del'])
         self.emit(f'{f} {i}')
-        if not h.heap: return
+        if not h.heap:
+            # destruct of a stack Box is the release of what it holds
+            if h.kind == 'box' and f == 'destruct':
+                o = h.owns; h.owns = None
+                if o in self.h and self.h[o].live and self.h[o].heap and self.h[o].reg: self.release_closure([o])
+            return
         via = f in ('del', 'del_root')
         if not via and h.reg: return                     # misuse: skipped by both sides
         if f == 'destruct': return
@@ -190,7 +219,7 @@ class Gen:
         elif h.kind in ('arr', 'lst'):
             op = r.choice(['push', 'push', 'pop', 'push_at', 'pop_at', 'resize', 'concat'])
             same = lambda: (r.choice(self.live(lambda x: x.kind in ('arr', 'lst') and x.ety == h.ety and x is not h)) if self.live(lambda x: x.kind in ('arr', 'lst') and x.ety == h.ety and x is not h) else i)
-            sk = ('int',) if h.ety == 'Int' else ('str',) if h.ety == 'String' else ('rto',)
+            sk = ('int',) if h.ety == 'Int' else ('str',) if h.ety == 'String' else ('tup',) if h.ety == 'Tuple' else ('arr',) if h.ety == 'Array' else ('rto',)
             if op == 'push': self.emit(f'push {i} {src(sk)}'); h.n += 1
             elif op == 'pop': self.emit(f'pop {i}'); h.n = max(0, h.n - 1)
             elif op == 'push_at': self.emit(f'push_at {i} {src(sk)} {r.randrange(-h.n - 2, h.n + 3)}'); h.n += 1
@@ -205,7 +234,7 @@ class Gen:
         elif h.kind in ('tab', 'tre'):
             op = r.choice(['set', 'set', 'set', 'rem', 'resize'])
             sk = ('int',) if h.kty == 'Int' else ('str',)
-            sv = ('int',) if h.vty == 'Int' else ('str',) if h.vty == 'String' else ('rto',)
+            sv = ('int',) if h.vty == 'Int' else ('str',) if h.vty == 'String' else ('tup',) if h.vty == 'Tuple' else ('arr',) if h.vty == 'Array' else ('rto',)
             if op == 'set': self.emit(f'set {i} {src(sk)} {src(sv)}'); h.n += 1
             elif op == 'rem': self.emit(f'rem {i} {src(sk)}')
             else: m = r.choice([0, h.n, h.n + 5, 1, 30]); self.emit(f'resize {i} {m}'); h.n = 0 if m == 0 else h.n
@@ -256,19 +285,23 @@ def systematic(kind):
     import random
     g = Gen(random.Random(kind), max_stack=10 ** 6)
     base_i = g.mk_int('new'); base_s = g.mk_str('new'); base_t = g.mk_tup('new', [base_i, base_s]); g.mk_rtt('new')
+    fix_i = g.mk_int('stack'); fix_s = g.mk_str('static'); fix_j = g.mk_int('static'); g.mk_tup('new', [fix_i, fix_s]); g.mk_seq('arr', 'new', 'Int', 3)
     routes = {'int': ROUTES, 'str': ['new', 'new_raw', 'new_root', 'stack', 'static', 'alloc'], 'tup': ['new', 'new_raw', 'new_root', 'stack', 'static'],
               'ref': ['new', 'new_raw', 'new_root', 'alloc', 'stack'], 'arr': ['new', 'new_raw', 'new_root'], 'lst': ['new', 'new_raw', 'new_root'],
-              'tab': ['new', 'new_raw', 'new_root'], 'tre': ['new', 'new_raw', 'new_root'], 'rtt': ['new', 'new_raw', 'new_root'], 'rto': HEAP_ROUTES, 'sty': ['static'], 'box': HEAP_ROUTES}[kind]
+              'tab': ['new', 'new_raw', 'new_root'], 'tre': ['new', 'new_raw', 'new_root'], 'rtt': ['new', 'new_raw', 'new_root'], 'rto': HEAP_ROUTES, 'sty': ['static'],
+              'box': HEAP_ROUTES + ['stack', 'stack']}[kind]
     def make(r):
         if kind == 'int': return g.mk_int(r)
         if kind == 'str': return g.mk_str(r)
         if kind == 'tup': return g.mk_tup(r, [base_i, base_s][:g.rng.randrange(0, 3)])
         if kind == 'ref': return g.mk_ref(r)
-        if kind in ('arr', 'lst'): return g.mk_seq(kind, r, g.rng.choice(['Int', 'String', 'RT' + str(list(g.rt)[0])]), 3)
-        if kind in ('tab', 'tre'): return g.mk_map(kind, r, g.rng.choice(['Int', 'String']), g.rng.choice(['Int', 'String', 'RT' + str(list(g.rt)[0])]), 3)
+        if kind in ('arr', 'lst'): return g.mk_seq(kind, r, g.rng.choice(['Int', 'String', 'Tuple', 'Array', 'RT' + str(list(g.rt)[0])]), 3)
+        if kind in ('tab', 'tre'): return g.mk_map(kind, r, g.rng.choice(['Int', 'String']), g.rng.choice(['Int', 'String', 'Tuple', 'Array', 'RT' + str(list(g.rt)[0])]), 3)
         if kind == 'rtt': return g.mk_rtt(r)
         if kind == 'rto': return g.mk_rto(r)
         if kind == 'box':
+            if r == 'stack':
+                return g.mk_box(r, target=g.rng.choice([g.mk_int(g.rng.choice(['new', 'new_raw', 'new_root', 'stack', 'static'])), g.mk_str('new'), g.mk_seq('arr', 'new', 'Int', 2)]))
             b = g.mk_box(r, target=(g.mk_int(g.rng.choice(['new', 'new_raw', 'new_root', 'stack', 'static'])) if not r.startswith('alloc') else None))
             if r.startswith('alloc') and g.rng.random() < 0.7: g.own_op(b)
             return b
@@ -279,9 +312,11 @@ def systematic(kind):
             if i in g.h and g.h[i].kind in ('arr', 'lst', 'tab', 'tre'):
                 for t, ety in g.elem_targets(i):
                     g.emit(f'obs {t}')
-                    g.emit(f'{f if not (ety == "String" and f in ("del_raw", "destruct")) else "dealloc"} {t}')
+                    g.emit(f'{f if not (ety in DTOR_ETYPES and f in ("del_raw", "destruct")) else "dealloc"} {t}')
                 g.emit(f'iter {i} fwd'); g.emit(f'iter {i} back')
-            g.emit(f'{f} {i}'); g.emit(f'{f} {i}'); g.emit(f'obs {i}')
+            if i in g.h and g.h[i].kind == 'box' and not g.h[i].heap: g.free_op(i, f); g.free_op(i, f)     # (keeps out of the finding's territory)
+            else: g.emit(f'{f} {i}'); g.emit(f'{f} {i}')
+            g.emit(f'obs {i}')
         for k in range(10):
             i = make(r)
             if i in g.h: g.inplace_op(i); g.inplace_op(i); g.emit(f'obs {i}')
@@ -368,7 +403,9 @@ def container_history(rng, nops):
     g = Gen(rng, max_stack=6)
     for _ in range(3): g.mk_int('new'); g.mk_str('new'); g.mk_int('stack'); g.mk_str('stack')
     g.mk_rtt('new'); g.mk_rto('new'); g.mk_rto('new_raw')
-    conts = [g.mk_seq('arr'), g.mk_seq('lst'), g.mk_map('tab', kty='Int'), g.mk_map('tre', kty='String'), g.mk_map('tab', kty='String'), g.mk_seq('arr', ety='String')]
+    g.mk_int('static'); g.mk_str('static'); g.mk_tup('new', g.fixed_items()[:3]); g.mk_tup('stack', g.fixed_items()[1:3]); g.mk_seq('arr', 'new', 'Int', 3); g.mk_seq('arr', 'new_raw', 'Int', 0)
+    conts = [g.mk_seq('arr'), g.mk_seq('lst'), g.mk_map('tab', kty='Int'), g.mk_map('tre', kty='String'), g.mk_map('tab', kty='String'), g.mk_seq('arr', ety='String'),
+             g.mk_seq('arr', ety='Tuple'), g.mk_seq('lst', ety='Array'), g.mk_map('tre', kty='Int', vty='Tuple'), g.mk_map('tab', kty='String', vty='Array'), g.mk_seq('lst', ety='Tuple')]
     for _ in range(nops):
         i = rng.choice(conts)
         if rng.random() < 0.15 and g.next < 500: g.mk_int(rng.choice(['new', 'new_raw'])); g.mk_str(rng.choice(['new', 'new_raw']))
@@ -402,7 +439,8 @@ class C19(Spec):
                   'size(type) bytes; iteration and the views hand out exactly such objects; dealloc releases iff the class is heap and otherwise raises ResourceError with the '
                   'state unchanged; every reallocating String/Tuple operation applied to a stack or static object raises (ValueError, or IndexOutOfBoundsError when the index '
                   'check comes first) before anything is changed; only heap objects are ever registered, so del and a collector run release only heap objects, and no object is '
-                  'released twice over any history — histories in which destructors delete other objects (Boxes: chains, rings, a Box that owns itself), also objects that '
+                  'released twice over any history; a refused release (dealloc*, del, del_root, and del_raw / destruct outside the territory of KF-C19-delraw-embedded) returns the very '
+                  'same state; the skipped calls of a history are an explicit predicate (St.freeSkip, Skipped) and are no-ops — histories in which destructors delete other objects (Boxes: chains, rings, a Box that owns itself, stack Boxes), also objects that '
                   'wait on the pending list of the sweep under way, in every pending order, at forced and threshold collections and at the teardown: every victim of a '
                   'collection is released exactly once and no released block is touched. The order "un-list, then finalise" of GC_Sweep\'s release loop and of both branches of '
                   'GC_Rem_Ptr is read from the source; with the other order the model exhibits the double finalisation (C19_late_clear_refuted). '
@@ -410,9 +448,11 @@ class C19(Spec):
                   'registration, value and the exact sequence of released blocks after every operation.')
     level_note = ('Trusted: Lean kernel (axioms propext / Quot.sound / Classical.choice at most); translate/g_hdr.py (text extraction); harness/driver comparison (testing); '
                   'AddressSanitizer for invalid or double frees; libc malloc/realloc/free are modelled. Known on this tree (not repaired, reported to the coordinator): '
-                  'del_raw of a String embedded in a container runs its destructor before dealloc refuses it (use after free while formatting the error); Tree_Alloc does not '
+                  'del_raw of an embedded or stack object whose destructor is not guarded for its class (String, Tuple, Array, … elements; a stack Box) runs that destructor before dealloc '
+                  'refuses the object (use after free while formatting the error; the Box is cleared and its pointee deleted); Tree_Alloc does not '
                   'round size(ktype), so the value header is misaligned for key types whose size is not a multiple of 8; del of an object that is not registered is silent.')
-    rule = ('op files: (a) for each kind of object (Int, String, Tuple, Ref, Array, List, Table, Tree, run-time Type, object of a run-time type, static built-in Type) every '
+    rule = ('op files: (a) for each kind of object (Int, String, Tuple, Ref, Array, List, Table, Tree — with Int, String, Tuple, Array and run-time struct elements —, Box on the heap and on the stack, '
+            'run-time Type, object of a run-time type, static built-in Type) every '
             'route that can produce it x each of the 7 freeing operations and 10 random in-place operations, each on a fresh object, also on its elements; (b) random '
             'histories of births (all routes; stack objects made with the real $ / tuple macros in live frames), freeing, reallocating and container operations, '
             'iteration, views and collector runs with chosen victims; (c) container histories that create, move and drop many elements and then look at every one; '
@@ -431,11 +471,13 @@ class C19(Spec):
                    'single thread; the collector is running; raw deletion (dealloc*, del_raw) is not applied to an object the collector manages, a run-time Type is not deleted while in use, '
                    'an object that is an item of a live Tuple is not deleted (documented misuse: both sides skip such operations); a Tuple never holds a Box or an object a live Box owns, '
                    'a Box never owns a Type object or a Tuple item (Box_Show follows the pointer, the mark phase dereferences Tuple items); destructors delete but do not allocate; '
-                   'Boxes live on the heap; the teardown is not observed while a registered run-time Type object exists',
-                   'not generated (known findings, witnesses in corpus/kf_c19_*.ops): del_raw / destruct of a String embedded in a container; a Tree whose key type has a size that is '
-                   'not a multiple of 8; `del` of an unregistered object is only required to leave it intact',
+                   'Boxes live on the heap or on the stack ($(Box, x) with x not itself a Box or Ref: the message of a refused dealloc shows the Box and what it points to; '
+                   'dealloc of a stack Box whose pointee the program has already released is skipped as `dangling`); the items of a Tuple stored inside a container are Ints / Strings '
+                   'that are not on the heap; the teardown is not observed while a registered run-time Type object exists',
+                   'not generated (known findings, witnesses in corpus/kf_c19_*.ops): del_raw / destruct of a String, Tuple or Array embedded in a container and del_raw of a stack Box '
+                   'that points to something (KF-C19-delraw-embedded); a Tree whose key type has a size that is not a multiple of 8; `del` of an unregistered object is only required to leave it intact',
                    'tuples with a repeated item are not iterated (F13, C11); slices are taken as slice(x, start, _) (F11, C11)',
-                   'element and key types: Int, String, run-time types of 8..256 bytes; strings are alphanumeric')
+                   'element and value types: Int, String, Tuple, Array of Int, run-time types of 8..256 bytes; key types: Int, String; strings are alphanumeric')
     def cases(self, rng, tier, boost=1):
         cs = []
         quick = tier == 'quick'
